@@ -41,6 +41,10 @@ pub fn exec(rec: &Value, _st: &mut State) -> Value {
     let mut plane = Plane3::new(UnitVec3::new_normalize(nv), d);
     let mut t = iso3(&rec["T"]);
     t.translation.vector *= s;
+    // `far`: after the motion T the whole scene is carried that many lattice units further from the origin; reported section
+    // points are carried back before they are quantised (the judge sees the scene moved by T only)
+    let far = match rec.get("far") { Some(_) => { let f = gvi(rec, "far"); Vector3::new(f[0] as f64 * s, f[1] as f64 * s, f[2] as f64 * s) } None => Vector3::zeros() };
+    t.translation.vector += far;
     if gi_or(rec, "side", 0) != 1 {
         mesh.transform(&t);
         plane = plane.transform_by(&t);
@@ -54,9 +58,14 @@ pub fn exec(rec: &Value, _st: &mut State) -> Value {
                     // `side` = 1: the section is taken in the mesh's own frame and the resulting CURVES are moved by T
                     // (Curve3::transformed_by) - the same curves must come out as when mesh and plane are moved first
                     let curves = if gi_or(rec, "side", 0) == 1 { curves.iter().map(|c| c.transformed_by(&t)).collect::<Vec<_>>() } else { curves };
-                    let cs: Vec<Vec<Vec<i64>>> = curves.iter().map(|c| c.points().iter().map(|p| qp3s(&mut q, p, s)).collect()).collect();
+                    let cs: Vec<Vec<Vec<i64>>> = curves.iter().map(|c| c.points().iter().map(|p| qp3s(&mut q, &(p - far), s)).collect()).collect();
                     let lens: Vec<i64> = curves.iter().map(|c| q.q(c.length() / s, QX)).collect();
-                    json!({"ok": true, "curves": cs, "lens": lens, "finite": q.finite})
+                    // derived observation: (reported length - length of the polygon through the reported vertices) / length * 2^30
+                    let lenres: Vec<i64> = curves.iter().map(|c| {
+                        let span: f64 = c.points().windows(2).map(|w| (w[1] - w[0]).norm()).sum();
+                        if span > 0.0 { q.q(((c.length() - span) / span * 1073741824.0).clamp(-1.0e9, 1.0e9), 1.0) } else { 0 }
+                    }).collect();
+                    json!({"ok": true, "curves": cs, "lens": lens, "lenres": lenres, "finite": q.finite})
                 }
             }
         }
